@@ -65,7 +65,7 @@ CLAIMED = {
          "6/C24", "Coq proof: unbounded soundness of append/member via the declarative semantics + exhaustive evaluation over a stated finite scope + all-modes instance oracle",
          "Completeness is proved only over the stated finite scope; rember/member1/distinct (which use !=) have bounded theorems only."),
  "C16": ("PARTIAL. Proved for ALL states with well-formed domains, all operands (ground, partly bound, unbound) and every constraint kind "
-         "(ltefd, plusfd, minusfd, timesfd, diseqfd, distinctfd and the CLP(Z)/tree kinds): posting a constraint or a domain, and re-running the "
+         "(ltefd, plusfd, minusfd, timesfd, diseqfd, distinctfd read as pairwise-different elements, and the CLP(Z)/tree kinds): posting a constraint or a domain, and re-running the "
          "store after the substitution grew, yield a state ALL of whose integer solutions satisfy the posted constraint and every constraint "
          "and domain of the state before (FDDen: post_constraint_FC, post_domain_FD, run_constraints_F), whether the propagator decided, pruned, "
          "dropped or bound; plus exact ground decisions per propagator. Not proved: the same for `==` between two domain variables "
